@@ -78,6 +78,9 @@ def _header_names(mapb):
 
 
 def r2_complete_records(chk, mapb):
+    from .ukvscan import refuse_compensation
+
+    refuse_compensation(mapb)
     loop = _scan_loop(mapb)
     klen, rlen = _header_names(mapb)
     cfg = CFG(mapb.node)
